@@ -343,6 +343,78 @@ fn get_additional_data(protocol_id: u64, expire_timestamp: u64) -> [u8; NETCODE_
     buffer
 }
 
+/// Verification hook: plain-data mirror of the private connect token (the struct itself is crate-private).
+#[cfg(feature = "verif")]
+#[derive(Debug, Clone, PartialEq, Eq)]
+pub struct VerifPrivateToken {
+    pub client_id: u64,
+    pub timeout_seconds: i32,
+    pub server_addresses: [Option<SocketAddr>; 32],
+    pub client_to_server_key: [u8; NETCODE_KEY_BYTES],
+    pub server_to_client_key: [u8; NETCODE_KEY_BYTES],
+    pub user_data: [u8; NETCODE_USER_DATA_BYTES],
+}
+
+#[cfg(feature = "verif")]
+impl VerifPrivateToken {
+    fn to_private(&self) -> PrivateConnectToken {
+        PrivateConnectToken {
+            client_id: self.client_id,
+            timeout_seconds: self.timeout_seconds,
+            server_addresses: self.server_addresses,
+            client_to_server_key: self.client_to_server_key,
+            server_to_client_key: self.server_to_client_key,
+            user_data: self.user_data,
+        }
+    }
+
+    fn from_private(t: PrivateConnectToken) -> Self {
+        Self {
+            client_id: t.client_id,
+            timeout_seconds: t.timeout_seconds,
+            server_addresses: t.server_addresses,
+            client_to_server_key: t.client_to_server_key,
+            server_to_client_key: t.server_to_client_key,
+            user_data: t.user_data,
+        }
+    }
+
+    /// Seal with the crate's own `PrivateConnectToken::encode`.
+    pub fn seal(
+        &self,
+        protocol_id: u64,
+        expire_timestamp: u64,
+        xnonce: &[u8; NETCODE_CONNECT_TOKEN_XNONCE_BYTES],
+        private_key: &[u8; NETCODE_KEY_BYTES],
+    ) -> Result<[u8; NETCODE_CONNECT_TOKEN_PRIVATE_BYTES], TokenGenerationError> {
+        let mut buffer = [0u8; NETCODE_CONNECT_TOKEN_PRIVATE_BYTES];
+        self.to_private().encode(&mut buffer, protocol_id, expire_timestamp, xnonce, private_key)?;
+        Ok(buffer)
+    }
+
+    /// Open with the crate's own `PrivateConnectToken::decode`.
+    pub fn open(
+        buffer: &[u8; NETCODE_CONNECT_TOKEN_PRIVATE_BYTES],
+        protocol_id: u64,
+        expire_timestamp: u64,
+        xnonce: &[u8; NETCODE_CONNECT_TOKEN_XNONCE_BYTES],
+        private_key: &[u8; NETCODE_KEY_BYTES],
+    ) -> Result<Self, TokenGenerationError> {
+        PrivateConnectToken::decode(buffer, protocol_id, expire_timestamp, xnonce, private_key).map(Self::from_private)
+    }
+
+    /// Plain (unsealed) serialization round trip through the crate's own write/read.
+    pub fn write_plain(&self) -> Vec<u8> {
+        let mut out = Vec::new();
+        self.to_private().write(&mut out).expect("write to Vec");
+        out
+    }
+
+    pub fn read_plain(bytes: &[u8]) -> Result<Self, io::Error> {
+        PrivateConnectToken::read(&mut Cursor::new(bytes)).map(Self::from_private)
+    }
+}
+
 #[cfg(test)]
 mod tests {
     use super::*;
